@@ -973,6 +973,6 @@ mutant("c17-slot-error-flattened-to-string",
 
 A = "src/ast.rs"
 mutant("c16-literal-eq-folded-by-derived-partialeq",
-       [(A, "pub enum BinaryOp {",
-            "#[derive(PartialEq)]\nenum Lit {\n    Null,\n    Bool(bool),\n    Int(i64),\n}\n\nfn lit_of(e: &RawExpr) -> Option<Lit> {\n    match e {\n        RawExpr::Null => Some(Lit::Null),\n        RawExpr::Bool{b} => Some(Lit::Bool(*b)),\n        RawExpr::Int{n} => Some(Lit::Int(*n)),\n        _ => None,\n    }\n}\n\npub fn fold_eq(lhs: &RawExpr, rhs: &RawExpr) -> Option<RawExpr> {\n    let (l, r) = (lit_of(lhs)?, lit_of(rhs)?);\n\n    Some(RawExpr::Bool{b: l == r})\n}\n\npub enum BinaryOp {")],
+       [(A, "#[derive(Clone, Debug)]\npub enum BinaryOp {",
+            "#[derive(PartialEq)]\nenum Lit {\n    Null,\n    Bool(bool),\n    Int(i64),\n}\n\nfn lit_of(e: &RawExpr) -> Option<Lit> {\n    match e {\n        RawExpr::Null => Some(Lit::Null),\n        RawExpr::Bool{b} => Some(Lit::Bool(*b)),\n        RawExpr::Int{n} => Some(Lit::Int(*n)),\n        _ => None,\n    }\n}\n\npub fn fold_eq(lhs: &RawExpr, rhs: &RawExpr) -> Option<RawExpr> {\n    let (l, r) = (lit_of(lhs)?, lit_of(rhs)?);\n\n    Some(RawExpr::Bool{b: l == r})\n}\n\n#[derive(Clone, Debug)]\npub enum BinaryOp {")],
        [("C16", "R16.9")], note="a literal `==` folder through derived PartialEq (the C16 part of seeded C16-f; not wired into the grammar)")
